@@ -74,6 +74,9 @@ class PostgreSQLQueryBuilder(QueryBuilder):
 
     @builder
     def returning(self, *terms: Any) -> "PostgreSQLQueryBuilder":  # type:ignore[return]
+        if terms and not any([self._insert_table, self._update_table, self._delete_from]):
+            raise QueryException("Returning can't be used in this query")
+
         for term in terms:
             if isinstance(term, Field):
                 self._return_field(term)
